@@ -323,9 +323,12 @@ def portOf : Option Str → Except Err (Option Nat)
       | none => .error .valueError
     else .error .valueError
 
+/-- the parser `UriConnection.__init__` calls: `urlparse` (cuts `;params`) or `urlsplit`, as extracted
+    from the source (`Gen.Uri.cutsParams`) -/
 def urlparse (v6ok : Str → Bool) (url : Str) : Except Err Parsed := do
   let s ← urlsplit v6ok url
-  let path := if usesParams.contains s.scheme && s.path.contains ';' then splitParams s.path else s.path
+  let path := if Gen.Uri.cutsParams && usesParams.contains s.scheme && s.path.contains ';' then splitParams s.path
+    else s.path
   let (u, p) := userinfo s.netloc
   let (h, portText) := hostinfo s.netloc
   let port ← portOf portText
@@ -413,6 +416,8 @@ inductive UOpt
   | timeout (n : Nat)
 deriving DecidableEq, Repr
 
+/-- the components of a URI.  `user`, `pass`, `vhost` hold *text as written in the URI* for
+    `renderRaw` (already percent-encoded) and *plain text* for `render` (which encodes them). -/
 structure Components where
   tls : Bool
   user : Option Str
@@ -425,8 +430,8 @@ deriving DecidableEq, Repr
 
 def renderUserinfo : Option Str → Option Str → Str
   | none, none => []
-  | some u, none => quote u ++ ['@']
-  | u, some p => quote (u.getD []) ++ ':' :: quote p ++ ['@']
+  | some u, none => u ++ ['@']
+  | u, some p => u.getD [] ++ ':' :: p ++ ['@']
 
 def renderHost : Option Host → Str
   | none => []
@@ -439,7 +444,7 @@ def renderPort : Option Nat → Str
 
 def renderPath : Option Str → Str
   | none => []
-  | some v => '/' :: quote v
+  | some v => '/' :: v
 
 def renderOpt : UOpt → Str
   | .heartbeat n => ['h', 'e', 'a', 'r', 't', 'b', 'e', 'a', 't', '='] ++ toDec n
@@ -449,8 +454,16 @@ def renderQuery : List UOpt → Str
   | [] => []
   | o :: os => '?' :: renderOpt o ++ os.flatMap (fun o => '&' :: renderOpt o)
 
-def render (c : Components) : Str :=
+/-- the URI whose userinfo and path are the given (already encoded) texts -/
+def renderRaw (c : Components) : Str :=
   (if c.tls then ['a', 'm', 'q', 'p', 's', ':', '/', '/'] else ['a', 'm', 'q', 'p', ':', '/', '/']) ++ renderUserinfo c.user c.pass ++
     renderHost c.host ++ renderPort c.port ++ renderPath c.vhost ++ renderQuery c.opts
+
+/-- `quote(·, safe='')` applied to username, password and virtual host -/
+def Components.encode (c : Components) : Components :=
+  { c with user := c.user.map quote, pass := c.pass.map quote, vhost := c.vhost.map quote }
+
+/-- the canonical URI of plain-text components -/
+def render (c : Components) : Str := renderRaw c.encode
 
 end Amqp.Uri
